@@ -39,6 +39,63 @@ def model_values(rows, n, k, W, H):
     return [int(v) for v in out]
 
 
+def huge_part(ctx):
+    """
+    Huge thin bins (objective values beyond 2^53), public objects.
+
+    Packings: both decoders on a few permutations, and "every item alone in
+    its bin" in two row orders; expected values from the exact break-point
+    model; to_bin_count, bounds and value are checked for every objective.
+    """
+    from moptipyapps.binpacking2d.packing import Packing
+    cnt = 0
+    fams = [(10 ** 12, 1000, [[1000, 1000, 20], [1, 1, 1]]),
+            (1000, 10 ** 12, [[1000, 1000, 20], [1, 1, 1]]),
+            (2 ** 39, 2 ** 14, [[2 ** 14, 2 ** 14, 9], [3, 1, 2]]),
+            (3 * 10 ** 9, 4 * 10 ** 6, [[10 ** 6, 4 * 10 ** 6, 5],
+                                        [7, 7, 1]])]
+    for (W, H, rows) in fams:
+        inst = C.make_instance(W, H, rows)
+        n = inst.n_items
+        seq = inst.get_standard_item_sequence()
+        cases = []
+        for x in (seq, seq[::-1], [-v for v in seq]):
+            for enc in (1, 2):
+                r, nb, _ = C.public_decode(inst, enc, x)
+                cases.append(r)
+        for order in (seq, seq[::-1]):
+            m = []
+            for b, t in enumerate(order):
+                m.append([t, b + 1, 0, 0, rows[t - 1][0], rows[t - 1][1]])
+            cases.append(np.array(m, np.int64))
+        objs = objectives(inst)
+        pk = Packing(inst)
+        for r in cases:
+            k = int(r[:, 1].max())
+            exp = P.objective_values_exact(r.tolist(), n, W, H)
+            pk[:, :] = r
+            pk.n_bins = k
+            for o, ob in enumerate(objs):
+                v = ob.evaluate(pk)
+                cnt += 1
+                bad = None
+                if v != exp[o]:
+                    bad = ("public", W, H, rows, o, int(v), exp[o],
+                           r.tolist())
+                elif ob.to_bin_count(v) != k:
+                    bad = ("to_bin_count", W, H, rows, o, int(v),
+                           ob.to_bin_count(v), k)
+                elif not ob.lower_bound() <= v <= ob.upper_bound():
+                    bad = ("bounds", W, H, rows, o, (int(v), int(v)),
+                           (ob.lower_bound(), ob.upper_bound()), k)
+                if bad:
+                    report(ctx, bad)
+    ctx.add("evaluations", cnt)
+    ctx.add("traces_validated_against_impl", cnt)
+    ctx.part("huge_thin_bins", instances=len(fams), evaluations=cnt)
+    ctx.log(f"huge thin bins: {cnt} objective evaluations beyond 2^53")
+
+
 def specs(ctx):
     if ctx.quick:
         return [(W, H, 1, 3) for W in range(1, 4) for H in range(1, 4)] \
@@ -261,6 +318,7 @@ def run(ctx: Ctx) -> None:
              objective_evaluations=int(mt[1]))
     ctx.log(f"mid-size bins: {mi} instances, {int(mt[0])} decodings, "
             f"{int(mt[1])} objective evaluations")
+    huge_part(ctx)
     ctx.add("states", int(tot[0]))
     ctx.add("transitions", int(tot[8]))
     ctx.add("evaluations", int(tot[1]))
